@@ -36,7 +36,11 @@
         side conditions [rename_dom] (identifiers marked, no blank-node class);
         [C09_rename_bnode_class_refuted] shows the second one is needed;
         [C09_rename_stem_refuted] (finding C09-F3): with detect_minimal_iri the
-        stem of a shape whose instances are blank nodes is cut out of their labels.
+        stem of a shape whose instances are blank nodes is cut out of their labels
+        -- on the source without the first test of _determine_suitable_iri_pattern
+        ([c_min_iri_skips_bnode_prefix = false]); with it the stem is invariant:
+        [C09_stem_rename_invariant], [C09_class_stem_rename_invariant],
+        [C09_printed_stem_rename_invariant].
 
     Not covered: runs with an instance cap under permutation (the capped
     tracker keeps the first [cap] instances per class in document order:
@@ -535,7 +539,9 @@ Proof.
   split; [vm_compute; reflexivity|]. split; [vm_compute; reflexivity|]. split; vm_compute; reflexivity.
 Qed.
 
-(** detect_minimal_iri is NOT invariant under a renaming (finding C09-F3): the
+(** detect_minimal_iri is NOT invariant under a renaming (finding C09-F3) on the
+    source in which _determine_suitable_iri_pattern accepts a common prefix that
+    starts with "_:" ([Gen.Consts.c_min_iri_skips_bnode_prefix = false]): the
     per-class fold of longest_common_prefix ([Model/MinIri.v: stem], the model of
     ClassProfiler._update_shape_min_iri + _determine_suitable_iri_pattern that
     C17 checks against the real code) runs over the KEYS of the instance
@@ -559,12 +565,87 @@ Qed.
 
 Definition g_bnstem : graph := [T (bn "b0") tau (ON (iri "A")); T (bn "b1") tau (ON (iri "A"))].
 
-Lemma C09_rename_stem_refuted :
+Lemma C09_rename_stem_refuted : c_min_iri_skips_bnode_prefix = false ->
   bn_renaming sg_genid /\ rename_dom tau g_bnstem = true /\
   track tau TAll (-1) g_bnstem = inl [(Str "_:b0", [ex "A"]); (Str "_:b1", [ex "A"])] /\
   track tau TAll (-1) (rename_graph sg_genid g_bnstem) =
     inl [(Str "_:genid:b0", [ex "A"]); (Str "_:genid:b1", [ex "A"])] /\
   MinIri.stem [Str "_:b0"; Str "_:b1"] = None /\
   MinIri.stem [Str "_:genid:b0"; Str "_:genid:b1"] = Some (Str "_:genid:").
-Proof. split; [exact C09_sg_genid_is_renaming|]. repeat split; vm_compute; reflexivity. Qed.
+Proof.
+  intros F. first [ vm_compute in F; discriminate F
+                  | split; [exact C09_sg_genid_is_renaming|]; repeat split; vm_compute; reflexivity ].
+Qed.
 Print Assumptions C09_rename_stem_refuted.
+
+(** ** with the first test ([c_min_iri_skips_bnode_prefix = true]: a common prefix that
+    starts with "_:" gives no stem) the stem does not depend on blank-node labels
+    (proofs: Proofs/StemRename.v).
+
+    [rid sg] is the renaming on identifiers ([C09_rename_unfold]): labels ("_:"-strings)
+    go to labels, every other identifier is fixed.  [well_formed_ids]: a non-empty list of
+    ids none of which starts with '%' (Spec/MinIriSpec.v; every list of IRIs and labels). *)
+From Shexer Require Import Spec.MinIriSpec Model.Examples Model.RunDecor Proofs.StemRename.
+
+(** at the level of the list of instance ids of a class *)
+Theorem C09_stem_rename_invariant : forall sg ids,
+  c_min_iri_skips_bnode_prefix = true -> bn_renaming sg -> well_formed_ids ids ->
+  MinIri.stem (map (rid sg) ids) = MinIri.stem ids.
+Proof. exact stem_rename. Qed.
+Print Assumptions C09_stem_rename_invariant.
+
+(** the instances of a class in the renamed dictionary are the renamed instances *)
+Theorem C09_instances_of_rename : forall sg (I : insts) c,
+  instances_of (rename_insts sg I) c = map (rid sg) (instances_of I c).
+Proof. exact instances_of_rename. Qed.
+
+(** composed with [C09_track_rename]: the tracker's dictionary of the renamed graph is the
+    renamed dictionary, and the profiler's per-class stem ([Examples.shape_stem], what both
+    serialisers print: Props/C17.v, [C17_class_stem]) of a class that has an instance is the
+    same on both *)
+Theorem C09_class_stem_rename_invariant : forall sg tau m cap g (I : insts) mode ip d d' c,
+  c_min_iri_skips_bnode_prefix = true -> bn_renaming sg -> rename_dom tau g = true ->
+  track tau m cap g = inl I ->
+  profile_examples true mode ip I g = Some d ->
+  profile_examples true mode ip (rename_insts sg I) (rename_graph sg g) = Some d' ->
+  (exists i, is_instance I c i) -> well_formed_ids (instances_of I c) ->
+  track tau m cap (rename_graph sg g) = inl (rename_insts sg I) /\
+  shape_stem d' c = shape_stem d c.
+Proof. exact class_stem_rename. Qed.
+Print Assumptions C09_class_stem_rename_invariant.
+
+(** the text put on the shape line of the decorated ShExC document ([RunDecor.min_iri_text],
+    inside the text model compared byte for byte with the real output by C17's check) *)
+Theorem C09_printed_stem_rename_invariant : forall sg c mode g (I : insts) d I' d' sh,
+  c_min_iri_skips_bnode_prefix = true -> bn_renaming sg -> rename_dom (r_tau c) g = true ->
+  run_decor_data c true mode g = Some (I, d) ->
+  run_decor_data c true mode (rename_graph sg g) = Some (I', d') ->
+  (exists i, is_instance I (sh_class sh) i) -> well_formed_ids (instances_of I (sh_class sh)) ->
+  I' = rename_insts sg I /\
+  min_iri_text {| d_dmi := true; d_mode := mode; d_inverse := r_inverse c |} d' sh =
+  min_iri_text {| d_dmi := true; d_mode := mode; d_inverse := r_inverse c |} d sh.
+Proof. exact printed_stem_rename. Qed.
+Print Assumptions C09_printed_stem_rename_invariant.
+
+(** non-vacuity / regression of C09-F3: the renaming of the refuted lemma, with the test *)
+Example C09_rename_stem_fixed : c_min_iri_skips_bnode_prefix = true ->
+  bn_renaming sg_genid /\ rename_dom tau g_bnstem = true /\
+  well_formed_ids [Str "_:b0"; Str "_:b1"] /\
+  map (rid sg_genid) [Str "_:b0"; Str "_:b1"] = [Str "_:genid:b0"; Str "_:genid:b1"] /\
+  MinIri.stem [Str "_:b0"; Str "_:b1"] = None /\
+  MinIri.stem [Str "_:genid:b0"; Str "_:genid:b1"] = None.
+Proof.
+  intros F. first [ vm_compute in F; discriminate F
+                  | split; [exact C09_sg_genid_is_renaming|];
+                    split; [vm_compute; reflexivity|];
+                    split; [apply MinIriProofs.well_formed_idsb_sound; vm_compute; reflexivity|];
+                    repeat split; vm_compute; reflexivity ].
+Qed.
+
+(** the flag is one of the two: exactly one of [C09_rename_stem_refuted] /
+    [C09_stem_rename_invariant] speaks about the source tree the constants were generated from *)
+Example C09_F3_status :
+  (c_min_iri_skips_bnode_prefix = false /\
+   MinIri.stem [Str "_:genid:b0"; Str "_:genid:b1"] = Some (Str "_:genid:")) \/
+  (c_min_iri_skips_bnode_prefix = true /\ MinIri.stem [Str "_:genid:b0"; Str "_:genid:b1"] = None).
+Proof. first [ left; split; vm_compute; reflexivity | right; split; vm_compute; reflexivity ]. Qed.
